@@ -192,8 +192,12 @@ type WalkOpts struct {
 	StateKey     func(r *Real, storer variable.Storer) string
 	AfterError   int  // further Next calls after the first error: must return without panic (C06)
 	StrictErrors bool // errors of the model must be errors of the implementation at the same step
-	Seed         string
-	NewStorer    func() variable.Storer // nil: default in-memory storer created by the runner
+	// ContinueAfterError: a path does not end at its first error: the walk goes on in lock-step with the statement that
+	// follows the failing one (as the pinned tree does; C10 states it for commands), except after an option group that
+	// could not be prepared. Disagreements after an error carry the clause prefix "after-error-".
+	ContinueAfterError bool
+	Seed               string
+	NewStorer          func() variable.Storer // nil: default in-memory storer created by the runner
 	// Host, if set, is called after every compared step that is not an end or an error: the host
 	// may act between two calls of Next (e.g. write to the storer and to the model store). It may
 	// use the chooser; DevBudget bounds its costly (ChooseDev) choices per path (<0: unbounded).
@@ -427,7 +431,11 @@ func Walk(p *Program, srcs []string, hs *HostSpec, o WalkOpts) (*Mismatch, WalkS
 		x, err, pan := newRun()
 		var path, args []int
 		var trace []string
+		sawError := false
 		fail := func(clause, detail string) {
+			if sawError {
+				clause = "after-error-" + clause
+			}
 			found = &Mismatch{Clause: clause, Path: append([]int{}, path...), Args: append([]int{}, args...), Trace: append([]string{}, trace...), Detail: detail, Notes: append([]string{}, m.Notes...)}
 			c.Stop()
 		}
@@ -608,6 +616,13 @@ func Walk(p *Program, srcs []string, hs *HostSpec, o WalkOpts) (*Mismatch, WalkS
 					}
 				}
 				break
+			}
+			if mo.K == OError && o.ContinueAfterError && !mo.OptsFailed && step+1 < o.MaxSteps {
+				st.Errors++
+				sawError = true
+				mo = mo.Next(0)
+				afterOptions = false
+				continue
 			}
 			if mo.K == OError {
 				st.Errors++
